@@ -182,8 +182,19 @@ def build(n, lazy_fns, refs=None, explicit_false=False):
   if t in ('call', 'callres'):
     head = lazy_fns.trace(lib.LIB[n[1]]) if t == 'call' else \
         build(n[1], lazy_fns, refs, explicit_false)
-    args = [build(a, lazy_fns, refs, explicit_false) for a in n[2]]
-    kwargs = {k: build(v, lazy_fns, refs, explicit_false) for k, v in n[3]}
+    # Structurally equal argument nodes of one call share ONE lazy object (as in
+    # `t = trace(counter)(); trace(pair)(t, t)`); every occurrence must still be
+    # evaluated on its own, exactly like the eager expression.
+    shared = {}
+
+    def b(a):
+      key = repr(a)
+      if key not in shared:
+        shared[key] = build(a, lazy_fns, refs, explicit_false)
+      return shared[key]
+
+    args = [b(a) for a in n[2]]
+    kwargs = {k: b(v) for k, v in n[3]}
     if n[4] or explicit_false:
       kwargs['cache_result_'] = bool(n[4])
     if n[5] or explicit_false:
@@ -363,6 +374,13 @@ def gen_any(rng, d, opts, root=False):
     args = tuple(gen_any(rng, d - 1, opts) for _ in range(rng.randint(0, 3)))
     names = rng.sample(KW, rng.randint(0, 2))
     kw = tuple((k, gen_any(rng, d - 1, opts)) for k in names)
+    if args and rng.random() < 0.25:
+      # the same sub-expression passed twice (positionally and/or by keyword)
+      dup = rng.choice(args)
+      if rng.random() < 0.5 or len(names) == len(KW):
+        args = args + (dup,)
+      else:
+        kw = kw + ((rng.choice([k for k in KW if k not in names]), dup),)
     return ('call', fname, args, kw, cache, lazy)
   if c == 'box_attr':
     return ('attr', gen_box(rng, d - 1, opts, chain=True), rng.choice(['w', 'scale']))
